@@ -102,15 +102,8 @@ def run(ck, tier):
     # nothing finds the older reply under a recycled / fallback key
     ck.rule('R5', 'the transaction table entry is removed when the reply is picked up (no older stored reply can answer a later request)')
     g = cx.method(tm, 'getTransaction')
-    okp = False
-    for p in cx.enum(g, tm, max_depth=0):
-        annotate(p)
-        r = ret_expr(p)
-        okp = isinstance(r, ast.Call) and callee_name(r) == 'pop' and U(r.func.value) == 'self.transactions' and r.args and U(r.args[0]) == g.params[1]
-        if not okp:
-            dels = [e for e in p.ev if (e.kind == 'del' and 'self.transactions' in U(e.node)) or
-                    (e.kind == 'call' and callee_name(e.node) in ('pop', 'popitem') and 'self.transactions' in U(e.node))]
-            okp = bool(dels)
+    from ..common import removes_on_pickup
+    okp, _why = removes_on_pickup(cx, g, tm)
     ck.ob('R5', g.qn, 'getTransaction(tid) removes the entry it returns', okp, detail='reply-not-removed', loc=cx.floc(g),
           message='DictTransactionManager.getTransaction leaves the reply in the table: a later transaction that receives nothing returns the older reply as its answer')
     ck.assume('correctness of decoded values is C01/C02; behaviour over all reply contents and histories is not decided')
